@@ -5508,12 +5508,13 @@ class Arc(Curve):
         self.sweep = Angle.degrees(delta).as_radians
 
     def as_quad_curves(self, arc_required=None):
-        if self.sweep == 0 and self.start != self.end:
-            # Zero radius: the arc is the straight line joining the endpoints.
-            yield QuadraticBezier(
-                self.start, Point.towards(self.start, self.end, 0.5), self.end
-            )
-            return
+        if self.sweep == 0:
+            if self.start != self.end:
+                # Zero radius: the arc is the straight line joining the endpoints.
+                yield QuadraticBezier(
+                    self.start, Point.towards(self.start, self.end, 0.5), self.end
+                )
+            return  # Zero extent: nothing is drawn, whatever count was requested.
         if arc_required is None:
             sweep_limit = tau / 12.0
             arc_required = int(ceil(abs(self.sweep) / sweep_limit))
@@ -5549,15 +5550,16 @@ class Arc(Curve):
             current_t = next_t
 
     def as_cubic_curves(self, arc_required=None):
-        if self.sweep == 0 and self.start != self.end:
-            # Zero radius: the arc is the straight line joining the endpoints.
-            yield CubicBezier(
-                self.start,
-                Point.towards(self.start, self.end, 1 / 3.0),
-                Point.towards(self.start, self.end, 2 / 3.0),
-                self.end,
-            )
-            return
+        if self.sweep == 0:
+            if self.start != self.end:
+                # Zero radius: the arc is the straight line joining the endpoints.
+                yield CubicBezier(
+                    self.start,
+                    Point.towards(self.start, self.end, 1 / 3.0),
+                    Point.towards(self.start, self.end, 2 / 3.0),
+                    self.end,
+                )
+            return  # Zero extent: nothing is drawn, whatever count was requested.
         if arc_required is None:
             sweep_limit = tau / 12.0
             arc_required = int(ceil(abs(self.sweep) / sweep_limit))
